@@ -966,6 +966,18 @@ def run_pts(case: dict) -> dict:
                 amount = fl(p["L"]) * fr.s
                 sh = cb.ExtrudedShape(s1, amount)
                 out["req"] = f"c11.extr {cls} {r3(c)} {r3(rp)} {r3(u)} {R(h)} {R(s1.core_ratio)} {R(s1.diagonal_ratio)} {R(amount)}"
+                # the same sketch revolved about an axis in its plane, beyond the rim, towards its normal (sweep < pi):
+                # compared with the model of RevolvedShape (request c11.rev), same case, no new input
+                ax = fr.V(1, 0, 0)
+                org = fr.P(0, -(fl(p["r"]) + fl(p["D"])), 0)
+                ang = min(max(fl(p["L"]), 0.2), 3.0)
+                s2 = getattr(d, cls)(c, rp, n)
+                rv = cb.RevolvedShape(s2, ang, ax, org)
+                out["req2"] = (
+                    f"c11.rev {cls} {r3(c)} {r3(rp)} {r3(u)} {R(h)} {R(s2.core_ratio)} {R(s2.diagonal_ratio)} "
+                    f"{r3(f.unit_vector(ax))} {r3(org)} {R(math.cos(ang))} {R(math.sin(ang))}"
+                )
+                out["pts2"] = [_rat3(q) for q in np.concatenate([op.point_array for op in rv.operations])]
             pts = np.concatenate([op.point_array for op in sh.operations])
             out["hexes"] = len(sh.operations)
     except Exception as e:  # a valid placement must be accepted
@@ -1032,6 +1044,10 @@ def pts_compare(case: dict, impl: dict, model: List[str]) -> Optional[str]:
 
     if "build_error" in impl:
         return None
+    if "req2" in impl and len(model) > 1:
+        why = pts_compare(case, {"what": impl["what"] + " revolved", "req": impl["req2"], "pts": impl["pts2"]}, model[1:])
+        if why:
+            return why
     ans = model[0]
     if ans == "bad-op":
         return f"the model rejects a valid request: {impl['req']}"
@@ -1084,7 +1100,9 @@ class C11(core.Check):
         "QuarterDisk, HalfDisk, FourCoreDisk and of ExtrudedShape / Cylinder / SemiCylinder / Frustum over them are an "
         "executable model (compared point by point) with theorems for all placements over every ordered field (faces "
         "counter-clockwise, blocks right-handed, rim on the circle; over R with the source's constants); round 6c: the "
-        "same for WrappedDisk, Oval and Grid (faces counter-clockwise, ExtrudedShape right-handed); Elbow, Hemisphere, rings beyond one segment, "
+        "same for WrappedDisk, Oval and Grid (faces counter-clockwise, ExtrudedShape right-handed); round 6d: RevolvedShape "
+        "of any mapped sketch in a half-plane through the axis is right-handed for every sweep below pi (general theorem; "
+        "its instantiation to the disk classes' own frame is compared, not proved); Elbow, Hemisphere, rings beyond one segment, "
         "spline sketches, the cusp shear of the joints and the distinctness of the generated points stay validator-only; "
         "joints: a uniform hand model for every branch count, equal to the probes for 2..6 (decide), compared with the "
         "implementation for every generated count (2..7 quick, 8, 9 thorough), choppable for 2..12 by evaluation; no "
@@ -1198,6 +1216,28 @@ class C11(core.Check):
                 if nsys % 3:
                     link["pre"] = gen_pre(rng, copy=nsys % 2, rigid=bool(nsys % 4 == 1))
                 c["p"] = {"base": base, "bp": bp, "links": [link]}
+                cases.append(c)
+            # both faces of the source occupied: every constructor that can start from the start face is used there
+            # (start_face passed positionally, as the documented signatures allow) while another shape sits on the end
+            # face - a shape that lands on the wrong face meets the other one (a face owned by three blocks)
+            for base, op, other in [
+                ("Cylinder", "Cylinder.chain", "Cylinder.chain"), ("Cylinder", "Frustum.chain", "Cylinder.chain"),
+                ("Cylinder", "Elbow.chain", "Frustum.chain"), ("Cylinder", "Hemisphere.chain", "Cylinder.chain"),
+                ("ExtrudedRing", "ExtrudedRing.chain", "ExtrudedRing.chain"),
+            ]:  # fmt: skip
+                c = gen_case(rng, "Chain", far=False)
+                c.pop("post", None)
+                links = []
+                for o_, start in ((op, 1), (other, 0)):
+                    link = {"op": o_, "src": 0, "start": start}
+                    if o_ in ("Cylinder.chain", "ExtrudedRing.chain"):
+                        link["L"] = rq(rng, 0.4, 2)
+                    elif o_ == "Frustum.chain":
+                        link.update(L=rq(rng, 0.4, 2), R2=rq(rng, 0.3, 1.5))
+                    elif o_ == "Elbow.chain":
+                        link.update(sweep=rq(rng, 0.25, 1.4), d=rq(rng, 0.6, 2.5), R2=rq(rng, 0.3, 1.2))
+                    links.append(link)
+                c["p"] = {"base": base, "bp": gen_round(rng, base), "links": links}
                 cases.append(c)
         if tier == "thorough":
             # joints beyond the probe tables and beyond the quick tier: 8 and 9 branches against the uniform joint model
@@ -1350,11 +1390,12 @@ class C11(core.Check):
                 "c11.cyl FourCoreDisk 0/1,0/1,0/1 0/1,0/1,1/1 1/1,0/1,0/1 0/1 7/10 4/5 9/10",
                 "c11.gridpts 0/1 0/1 1/1 1/1 0 2",
                 "c11.joint 1",
+                "c11.rev FourCoreDisk 0/1,0/1,0/1 1/1,0/1,0/1 0/1,0/1,1/1 7/10 4/5 9/10 2/1,0/1,0/1 0/1,-3/1,0/1 3/5 4/5",
                 "c11.extrg 0/1 0/1 1/1 1/1 0 2 1/1",
                 "c11.extrw 0/1,0/1,0/1 1/1,0/1,0/1 0/1,0/1,1/1 7/10 9/10 1/2 0/1 1/1",
             ]
         if case["kind"] == "Pts":
-            return [impl["req"]] if "req" in impl else []
+            return ([impl["req"]] if "req" in impl else []) + ([impl["req2"]] if "req2" in impl else [])
         if "blocks" not in impl:
             return []
         flat = "[" + ",".join(str(v) for b in impl["blocks"] for v in b) + "]"
